@@ -46,6 +46,24 @@ CLAIMED = {
    text="For each corpus font and each writer API every k in 0..len(output) is injected in two variants (refuse the crossing call / short write): error non-nil, count == bytes accepted, destination is a prefix of the fault-free output, success with count L for k>=L. For the reader every truncation length (ReaderAt and streaming) and every k of a ReaderAt/Reader that fails with a non-EOF error are enumerated; a recording run gives the offsets a fault-free read touches, which decides whether an error or an equal font is required. Exhaustive in k for files below 24 KB, boundary neighbourhoods + stride 7 above.",
    note="trusted: determinism of Write (C01) for the prefix reference; corpus is a dozen fonts, not all fonts",
    design="5/C18"),
+ "C15": dict(
+   technique="runtime monitoring: composition monitor (Layout vs best-cmap -> selected GSUB -> widths -> selected GPOS), selection oracle over FindLookups (ascending, in range, explained by one language system, stable over 200 calls), harness-assembled kern tables and ligature cmaps as independent inputs",
+   level="exploration",
+   text="Layouts of generated fonts over mapped/unmapped strings, languages and feature switches are compared stage by stage with the composition the property states; FindLookups is checked on script lists with 1..20 language systems; kern-only files (1..4 format-0 subtables in all horizontal/minimum/override combinations, up to 3000 pairs) are assembled by the harness, read by sfnt.Read and every pair is laid out and compared with the kern specification; all 32 subsets of the five f-ligature characters are checked in proportional and fixed-pitch fonts.",
+   note="trusted: gtab.Context.Apply as the middle stage (judged separately by C06/C07), the harness's kern accumulation rule, x/text/language's ranking of near-miss languages is not judged",
+   design="5/C15"),
+ "C16": dict(
+   technique="runtime monitoring with the Go race detector (-race, halt_on_error=0, log parsed per case) plus a value oracle against the sequential result and a canary race that proves the detector is live",
+   level="exploration",
+   text="2..64 goroutines released by a barrier run seeded permutations of the 15 read-only operations of the property on one shared font (generated fonts of every outline kind with layout tables, corpus fonts read from bytes) under GOMAXPROCS 2 and 16; every race report touching go-sfnt is a violation, every result must equal the result of the same call made alone; the evidence lists the operation pairs whose executions overlapped. A run in which the deliberately racy canary is not reported is inconclusive.",
+   note="trusted: the race detector (happens-before based, sees only executed accesses); operations that are nondeterministic when run alone are excluded from the value comparison (Subset uses an order-insensitive digest)",
+   design="5/C16"),
+ "C20": dict(
+   technique="runtime monitoring: postcondition monitor over MakeGlyphNames / EnsureGlyphNames / MakeSimple / PostScriptName on generated fonts, with repeated-call stability comparison",
+   level="exploration",
+   text="Fonts with every name pattern (complete, none, holes, duplicates, clashes with future placeholders and derived names, invalid names, short TrueType name lists, CID-keyed) x cmaps x GSUB 1.1/1.2/3.1/4.1 rule sets (several rules reaching one target) are asked for names: length, non-empty, pairwise distinct, .notdef first, unique given names kept, free glyph-list names of mapped code points used, substitution-derived names before placeholders, every name explained; 12 repeated calls must agree; EnsureGlyphNames+GlyphName and MakeSimple obey the same rules; PostScriptName over Unicode family names contains only permitted bytes.",
+   note="trusted: names.FromUnicode / names.IsValid of the external postscript module as the definition of glyph-list names and CFF name validity",
+   design="5/C20"),
 }
 
 REASON_TODO = "check not built yet in this session; no claim is made"
